@@ -55,7 +55,7 @@ PROPS = {
         + [f"Dispatcher.{k}$raw" for k in ("raw_ready_operations", "available_operations", "current_time",
                                             "unscheduled_operations", "scheduled_operations", "uncompleted_operations",
                                             "ongoing_operations")]
-        + ["lemma_machine_ends_monotone"]
+        + ["lemma_machine_ends_monotone", "Dispatcher.is_scheduled", "Dispatcher.is_ongoing", "Dispatcher.remaining_duration"]
         + ["Dispatcher.next_operation", "Dispatcher.earliest_start_time", "Dispatcher.start_time",
            "Dispatcher.min_start_time", "Dispatcher.is_operation_ready", "Dispatcher._update_tracking_attributes",
            "Dispatcher.reset", "Dispatcher.__init__", "Dispatcher.dispatch",
@@ -84,7 +84,8 @@ PROPS = {
                      "unscheduled operations followed by the operations of ongoing_operations()",
                      "bounded only: that a CACHED ongoing_operations answer still equals the recomputation (the cache invariant "
                      "carries only its shape; dispatch / reset clear every key: proved), the values of completed_operations, "
-                     "available_machines, available_jobs, is_scheduled/is_ongoing, current_time under a filter; the "
+                     "available_machines, available_jobs (sets: outside the verified subset), current_time under a filter "
+                     "(is_scheduled, is_ongoing and remaining_duration equal their definitions: proved); the "
                      "UnscheduledOperationsObserver mirror is proved per call (reset establishes it, update re-establishes it "
                      "after each dispatch); its construction on a dispatcher with history (itertools.chain) is bounded"],
     ),
